@@ -32,6 +32,23 @@ def main(argv):
         scripts += cs.gen(chk, 'reorder', 'Par7', 100 * k, 80, seed + 13)
         scripts += cs.gen(chk, 'adversarial', 'Par14', 50 * k, 120, seed + 14)
     res = cs.run(chk, scripts, FORMULAS, models)
+    # the two views (height -> hash, hash -> height) across 1000-header file boundaries: store-level batch at real scale
+    if not chk.replay:
+        from . import c09
+        st = c09.gen_store_scripts(chk, 60 if thorough else 20, 28, chk.seed * 1000 + 15)
+        slines, sgroups, sbad, srej, sids = c09.replay_and_judge(chk, st)
+        seen = set()
+        for f, l in sorted(sbad, key=lambda x: x[1]):
+            ln = slines[l - 1]
+            if f != 'QueryOK' or ln['tr'] in seen:
+                continue
+            seen.add(ln['tr'])
+            o = ln['obs']
+            first = sgroups[ln['tr']][0]
+            chk.violation('Inverse', 'store scenario %s step %d: after %s(%s) -> %s the height->hash and hash->height views disagree with the chain: h=%s tip=%s hash[..]=%s height-of[..]=%s' % (
+                ln['tr'], l - first, ln['a'], ln['t'], ln['rs'], o['h'], o['tip'], o['hs'], o['ids']),
+                {'store_script': {'id': ln['tr'], 'rmok': bool(sids[ln['tr']].get('rmok')), 'steps': sids[ln['tr']]['steps'][:l - first]}}, {'line': ln})
+        chk.notes.append('store-level batch: %d scenarios, %d lines at real scale' % (len(st), len(slines)))
     for name, r in models:
         if r.violated and ('model-cex-%s' % name) not in res['bad_traces']:
             chk.infra('new unreproduced model counterexample: %s (%s)' % (name, r.violated))
